@@ -31,6 +31,7 @@ var pkgs = []string{
 	".", "socket", "utils", "xfer", "xfer/gzip", "xfer/md5", "codec",
 	"proto/rawproto", "proto/jsonproto", "proto/pbproto", "proto/httproto", "proto/thriftproto",
 	"plugin/auth", "plugin/secure", "plugin/overloader", "plugin/proxy", "plugin/ignorecase",
+	"mixer/multiclient",
 }
 
 // files left untouched (real primitives): the logger owns a private goroutine and pool
